@@ -21,6 +21,14 @@ def gen_case(rng, tier, damaged, single_ok=True):
     exp = gen.pick_pl_exp(rng, tier, hi=17 if tier == "quick" else 19)
     pl = 2 ** exp
     tree = gen.gen_tree(rng, pl, tier, allow_single=single_ok, maxp=4)
+    if rng.random() < 0.03:
+        # piece lengths of 2 / 4 MiB with files of a few pieces: buffers, counters and paddings of megabyte size
+        exp = rng.choice([21, 21, 22])
+        pl = 2 ** exp
+        n = rng.randint(2, 3)
+        tree = {"name": "bigpieces", "single": False, "dirs": [], "layout": "large-pieces",
+                "files": [[f"f{k}.bin", rng.choice([pl + pl // 2, 3 * pl + 7, pl - 1, 3 << 20, (7 << 20) + 1, pl]),
+                           rng.randrange(1 << 30)] for k in range(n)]}
     version = rng.choice([1, 2, 3])
     if rng.random() < 0.5:
         enc = ["tool", rng.choice(TOOL_ROUTES[version])]
@@ -286,6 +294,8 @@ def _common_result(case, obs, viol, counters, sample_extra=None):
         counters["cases_with_earlier_rechecks_in_process"] = 1
     if case.get("edit_after"):
         counters["cases_with_edited_metafile"] = 1
+    if case["tree"]["layout"] == "large-pieces":
+        counters["cases_with_megabyte_pieces"] = 1
     sample = {"files": [[f[0], f[1]] for f in case["tree"]["files"][:8]], "piece_length": 2 ** case["pl_exp"],
               "version": case["version"], "encoder": case["encoder"], "via": case["via"], "form": case["form"],
               "damage": case["damage"], "tool_result": obs.get("tool_result"),
